@@ -228,6 +228,42 @@ class Isa(object):
             b = bytes([pool[rnd.randrange(len(pool))]]) + b
         return b
 
+    def gen_x86_modrm(self, rnd, mode=0):
+        """x86/x64 only: an encoding of a spec with a ModRM byte where the addressing form is chosen
+        systematically (every Mod, SIB present, SIB without base / without index, disp32-only, RIP-relative),
+        followed by boundary/random displacement and immediate bytes, under 0..3 legacy prefixes and REX"""
+        S = self.specs[mode]
+        core, fields = self._spec_info(mode)
+        if not hasattr(self, "_modrm"):
+            self._modrm = {}
+        if mode not in self._modrm:
+            self._modrm[mode] = [k for k in range(len(S)) if any(n == "Mod" for n, lo, hi in fields[k]) and any(n == "RM" for n, lo, hi in fields[k])]
+        ks = self._modrm[mode]
+        k = ks[rnd.randrange(len(ks))]
+        sp = S[k]
+        size = sp.fix.size
+        v = (rnd.getrandbits(size) & ~sp.mask.ival) | sp.fix.ival
+        pos = dict((n, (lo, hi)) for n, lo, hi in fields[k])
+        r = rnd.random()
+        rm = 4 if r < 0.5 else (5 if r < 0.7 else rnd.randrange(8))
+        for n, val in (("Mod", rnd.randrange(4)), ("RM", rm)):
+            lo, hi = pos[n]
+            keep = ((1 << size) - 1) ^ (((1 << (hi - lo)) - 1) << lo)
+            v = (v & keep) | (val << lo)
+        v = (v & ~sp.mask.ival) | sp.fix.ival
+        b = v.to_bytes(size // 8, "little")
+        r = rnd.random()
+        base = 5 if r < 0.4 else (4 if r < 0.55 else rnd.randrange(8))
+        index = 4 if rnd.random() < 0.3 else rnd.randrange(8)
+        b += bytes([(rnd.randrange(4) << 6) | (index << 3) | base])
+        kind = rnd.randrange(4)
+        n = rnd.randrange(4, 12)
+        b += [bytes(n), b"\xff" * n, b"\x80" * n, bytes(rnd.getrandbits(8) for _ in range(n))][kind]
+        pfx = bytes(X86_WEIGHTED[rnd.randrange(len(X86_WEIGHTED))] if rnd.random() < 0.6 else X86_PREFIXES[rnd.randrange(len(X86_PREFIXES))] for _ in range(rnd.randrange(0, 4) if rnd.random() < 0.6 else 0))
+        if self.is_x64 and rnd.random() < 0.6:
+            pfx += bytes([REX[rnd.randrange(16)]])
+        return pfx + b
+
     def gen_bytes(self, rnd, mode, endian, tail=True, index=None):
         """spec-guided byte string (mostly decodable), mixed with random
         strings, truncations and bit flips. All randomness comes from rnd.
